@@ -200,6 +200,12 @@ def mk_call(site, callee, args, argtys=None):
             return args[0]
     if how == "deref0" and args:
         return mk_deref(args[0])
+    # `collect` into anything but a sequence (a HashMap / HashSet / BTreeMap ...) merges elements with equal keys: it is
+    # not the one-for-one hand-over that collecting into a Vec is, and gets a name of its own
+    if d == "core::iter::Iterator::collect" and callee:
+        tb = (callee.get("targs") or [{}])[-1]
+        if not (tb.get("adt") in ("alloc::vec::Vec", "alloc::collections::VecDeque", "alloc::collections::vec_deque::VecDeque") and tb.get("peel", 0) == 0):
+            return ("call", site, "core::iter::Iterator::collect_keyed", tuple(args))
     # NonZero::new(0) is None
     if d.startswith("core::num::NonZero") and d.endswith("::new") and len(args) == 1 and is_const(args[0], 0):
         return mk_agg("adt", "core::option::Option", "None", 0, ())
